@@ -40,7 +40,7 @@ class C15(Check):
             "malformed name was present")
     TIERS = {"quick": {"runs": 1600, "budget_s": 50}, "thorough": {"runs": 80000, "budget_s": 900}}
     ASSUMPTIONS = ["numeric components that only Python's int() accepts (+1, 1_0, leading zeros, non-ASCII digits) are not generated",
-                   "a bare root name is only used when no ancestor directory has the same name and no other directory of that name exists under cwd (otherwise the designation is ambiguous)"]
+                   "a bare root name with a RELATIVE target is only used when no ancestor directory has the same name and no other directory of that name exists under cwd (otherwise the designation is ambiguous); with an absolute target the working directory may hold an unrelated entry of that name"]
 
     def generate(self, rng: random.Random, r: int, tier: str) -> dict:
         nroots = rng.randint(1, 2)
@@ -118,7 +118,11 @@ class C15(Check):
                 cwd = parent
             else:
                 cwd = rng.choice(["", "w", parent, roots[troots[0]]["dir"]])
-            if rstyle == "name":
+            if rstyle == "name" and tstyle in ("abs", "ln", "dd") and scn.get("decoy") and nroots == 1 and rng.random() < 0.5:
+                # absolute target + bare root name, called from a working directory that happens to hold an unrelated entry of
+                # that name (another checkout, a build folder): the name still designates the namespace the target lies in
+                cwd = "w/decoy"
+            elif rstyle == "name":
                 # a bare root name is also a cwd-relative path: keep it unambiguous (no directory of that name under cwd
                 # other than the root itself)
                 for ri in troots:
